@@ -49,12 +49,16 @@ func Exec(s *world.Stack, w *world.World, rq world.Req, forPID string) *world.Ob
 	if u2 := o.UIDAfter(); u2 != "" && u2 != o.UIDBefore() {
 		switch o.Req.Tag.Kind {
 		case "otplogin":
-			if sec := t.ByVal("otp", o.Req.Tag.Secret); sec != nil && !sec.Dead && sec.Owner == u2 {
+			if sec := t.ByVal("otp", o.Req.Tag.Secret); sec != nil && !sec.Dead && sec.Owner == u2 && o.Req.Tag.PID == u2 {
 				sec.Dead, sec.Why, sec.Used = true, "used", true
 			}
 		case "totp_validate", "sms_validate":
 			if rc := o.Req.Tag.Recovery; rc != "" {
-				if sec := t.ByVal("rc", rc); sec != nil && !sec.Dead && sec.Owner == u2 {
+				pend := o.SessBefore["totp_pending"]
+				if o.Req.Tag.Kind == "sms_validate" {
+					pend = o.SessBefore["sms_pending"]
+				}
+				if sec := t.ByVal("rc", rc); sec != nil && !sec.Dead && sec.Owner == u2 && pend == u2 {
 					sec.Dead, sec.Why, sec.Used = true, "used", true
 				}
 			}
